@@ -9,3 +9,4 @@ pub mod c05;
 pub mod conn;
 pub mod connrun;
 pub mod byterun;
+pub mod c12;
